@@ -34,6 +34,9 @@ def describe(ck):
     ck.rule("R09d", "'not given' is a negative constant from init_param to aln_param_init: option table, "
                     "option cases, and same-named arguments sit in same-named parameter positions")
     ck.rule("R09e", "documented DNA numbers: match/mismatch/gpo/gpe/tgpe of dna and internal equal README's list")
+    ck.rule("R09f", "set_gap_penalties_n copies each base penalty column (55/56/57) into the column of the same kind the kernels read (27/28/29) on every path, border column and column loop")
+    ck.rule("R09g", "make_profile_n stores the negated penalty of the matching kind into every gap column (23/24/25 mod 32)")
+    ck.rule("R09h", "update_n: in every branch the gap events counted (columns 23/24/25) and the penalties charged are of the same kinds and weighted by the same group size")
     ck.not_decided.append("end-to-end equality of 'explicit default' and 'default' runs on all inputs")
     ck.assumptions.append("a negative penalty means 'not given' (README / parameters.c convention)")
 
@@ -609,6 +612,170 @@ def r09e(ck, prog):
                              ma, mm, README_DNA["match"], README_DNA["mismatch"]), prog.config)
 
 
+# --------------------------------------------------------------------------- R09f-h: the penalties on their way to the kernels
+COL_CLASS = {23: "gpo", 24: "gpe", 25: "tgpe"}       # per-column gap columns, modulo 32 (23..25 counters, 55..57 base, 27..29 scaled)
+
+
+def _pen_class(prog, F, n, depth=0):
+    """penalty (gpo/gpe/tgpe) a scalar expression stands for: an aln_param field or a local defined once from one"""
+    from ..util import local_defs
+    found = set()
+    for x in n.walk():
+        if x.k == "MemberExpr" and x.d.get("field") in PENALTIES:
+            found.add(x.d["field"])
+        elif x.k == "DeclRefExpr" and x.d.get("dk") == "Var" and not x.d.get("g") and depth < 3:
+            defs = local_defs(F, x.d["did"])
+            rhs = [d for d, _ in defs if d is not None]
+            if len(defs) == len(rhs) and 1 <= len(rhs) <= 2:
+                cl = set()
+                for r in rhs:
+                    cl |= _pen_class(prog, F, r, depth + 1)
+                if len(cl) == 1:
+                    found |= cl
+        elif x.k == "DeclRefExpr" and x.d.get("dk") == "Parm" and x.ty in ("float", "const float") and F.static and depth < 2:
+            # a private helper that receives the penalty as an argument: what every caller passes in that position
+            idx = F.param_index(x.d["name"])
+            cl, ncall = set(), 0
+            for G, c in prog.callers_of(F.name):
+                if idx is not None and idx < len(c.args):
+                    ncall += 1
+                    cl |= _pen_class(prog, G, c.args[idx], depth + 1) or {"?"}
+            if ncall and len(cl) == 1 and "?" not in cl:
+                found |= cl
+    return found
+
+
+def r09f(ck, prog):
+    """set_gap_penalties_n is the only place where the selected penalties (base columns 55..57 of a profile) reach the
+    columns the kernels read (27..29): on every path to its return, each of 27/28/29 is stored from the base column of the
+    same kind (index + 28), for the border column and inside the column loop"""
+    F = prog.fn("set_gap_penalties_n")
+    stores = {27: [], 28: [], 29: []}
+    for a in F.body.find("BinaryOperator"):
+        if a.d["op"] != "=":
+            continue
+        l = a.kids[0].strip()
+        if l.k == "ArraySubscriptExpr" and l.kids[1].cv in stores and l.ty == "float":
+            srcs = {x.kids[1].cv for x in a.kids[1].find("ArraySubscriptExpr") if x.kids[1].cv is not None}
+            stores[l.kids[1].cv].append((a, srcs))
+    n = 0
+    for col, lst in stores.items():
+        where = site(prog, lst[0][0] if lst else F, "column %d" % col)
+        n += len(lst)
+        ck.inst("R09f", where, "set_gap_penalties_n stores column %d %d time(s), from column(s) %s" % (col, len(lst), sorted({c for _, s_ in lst for c in s_})), prog.config)
+        for a, srcs in lst:
+            if srcs != {col + 28}:
+                ck.violation("R09f", "R09f/col%d/source" % col, site(prog, a, "column %d" % col),
+                             "column %d (the %s the kernels read) is computed from column(s) %s instead of its base column %d: the kernels "
+                             "price this transition with a different penalty than the one selected" % (col, COL_CLASS[col - 4], sorted(srcs), col + 28), prog.config)
+        # every place that stores the column - a store outside loops, or a loop that contains one - lies on every path to the return
+        sites = []
+        for a, _ in lst:
+            loops = [x for x in a.ancestors() if x.k in ("ForStmt", "WhileStmt", "DoStmt")]
+            if loops:
+                c = loops[-1].child("cond")
+                if c is None:
+                    raise AnalysisBroken("R09f: column loop without a condition in set_gap_penalties_n")
+                sites.append(("the column loop at line %d" % loops[-1].line, F.cfg.position(c)))
+            else:
+                sites.append(("the store at line %d" % a.line, F.cfg.position(a)))
+        if not sites:
+            raise AnalysisBroken("R09f: set_gap_penalties_n no longer stores column %d" % col)
+        for what, pos in sites:
+            if pos is None:
+                raise AnalysisBroken("R09f: %s has no position in the flow graph" % what)
+            if F.succeeds_avoiding([pos]):
+                ck.violation("R09f", "R09f/col%d/skipped" % col, where,
+                             "set_gap_penalties_n can return without passing %s, which stores column %d: a profile that takes that path "
+                             "keeps whatever update_n summed there (zeros for a pair), so none of the selected gap penalties applies to it" % (what, col),
+                             prog.config)
+                break
+    ck.floor("R09f", n, 3, "stores to the scaled penalty columns")
+
+
+def r09g(ck, prog):
+    """make_profile_n writes, into every gap column of a fresh profile (23/24/25 modulo 32), the negated penalty of that
+    column's kind taken from the aln_param it was given"""
+    M = prog.fn("make_profile_n")
+    n = 0
+    cands = [(M, a) for a in M.body.find("BinaryOperator")]
+    for c in M.body.calls():
+        H = prog.functions.get(c.callee) if c.callee else None
+        if H is not None and H.static and H.file == M.file and H is not M:
+            cands += [(H, a) for a in H.body.find("BinaryOperator")]
+    seen = set()
+    for F, a in cands:
+        if a.d["op"] != "=" or a.id in seen:
+            continue
+        seen.add(a.id)
+        l = a.kids[0].strip()
+        if not (l.k == "ArraySubscriptExpr" and l.ty == "float" and l.kids[1].cv is not None and l.kids[1].cv % 32 in COL_CLASS):
+            continue
+        col = l.kids[1].cv
+        r = a.kids[1].strip(casts=True)
+        n += 1
+        cls = _pen_class(prog, F, r)
+        neg = r.k == "UnaryOperator" and r.d["op"] == "-"
+        where = site(prog, a, "column %d" % col)
+        ck.inst("R09g", where, "make_profile_n: column %d := %s%s" % (col, "-" if neg else "", sorted(cls)), prog.config)
+        if not cls:
+            raise AnalysisBroken("R09g: the value stored into gap column %d of make_profile_n is not a penalty of the aln_param (%s)" % (col, r.text()[:40]))
+        if cls != {COL_CLASS[col % 32]} or not neg:
+            ck.violation("R09g", "R09g/col%d@%d" % (col, a.line), where,
+                         "make_profile_n stores %s%s into column %d, which holds the negated %s: the profile carries a different penalty "
+                         "than the one selected" % ("-" if neg else "+", "/".join(sorted(cls)), col, COL_CLASS[col % 32]), prog.config)
+    ck.floor("R09g", n, 3, "gap-column stores in make_profile_n and its private helpers")
+
+
+def r09h(ck, prog):
+    """update_n charges what it counts: in every branch, the gap-event counters it increments (column 23 = open, 24 =
+    extension, 25 = terminal) and the penalties it adds to the charge gp are of the same kinds, and both are weighted by
+    the same group size"""
+    U = prog.fn("update_n")
+    fns, todo = [U], [U]
+    while todo:
+        G = todo.pop()
+        for c in G.body.calls():
+            H = prog.functions.get(c.callee) if c.callee else None
+            if H is not None and H.static and H.file == U.file and H not in fns:
+                fns.append(H)
+                todo.append(H)
+    blocks = {}
+    for F, a in [(F, a) for F in fns for a in list(F.body.find("BinaryOperator")) + list(F.body.find("CompoundAssignOperator"))]:
+        l = a.kids[0].strip()
+        blk = next((x for x in a.ancestors() if x.k == "CompoundStmt"), None)
+        if l.k == "DeclRefExpr" and l.ty == "float" and _pen_class(prog, F, a.kids[1]) and a.d["op"] in ("=", "+="):
+            b = blocks.setdefault((F.name, blk.id), {"blk": blk, "charge": [], "count": [], "F": F})
+            b["charge"].append(a)
+        elif a.k == "CompoundAssignOperator" and a.d["op"] == "+=" and l.k == "ArraySubscriptExpr" and l.kids[1].cv in COL_CLASS:
+            b = blocks.setdefault((F.name, blk.id), {"blk": blk, "charge": [], "count": [], "F": F})
+            b["count"].append(a)
+    n = 0
+    for b in blocks.values():
+        n += 1
+        where = site(prog, b["blk"], "branch")
+        F = b["F"]
+        charged = set()
+        for a in b["charge"]:
+            charged |= _pen_class(prog, F, a.kids[1])
+        counted = {COL_CLASS[a.kids[0].strip().kids[1].cv] for a in b["count"]}
+        wc = {r.d["name"] for a in b["charge"] for r in a.kids[1].find("DeclRefExpr") if r.d.get("dk") in ("Parm", "Var") and r.ty.replace("const ", "") == "int"}
+        wn = {r.d["name"] for a in b["count"] for r in a.kids[1].find("DeclRefExpr") if r.d.get("dk") in ("Parm", "Var") and r.ty.replace("const ", "") == "int"}
+        ck.inst("R09h", where, "update_n branch at line %d: counts %s (weight %s), charges %s (weight %s)" % (
+            b["blk"].line, sorted(counted), sorted(wn), sorted(charged), sorted(wc)), prog.config)
+        if not b["charge"] or not b["count"]:
+            raise AnalysisBroken("R09h: a branch of update_n (line %d) counts gap events without charging them or the reverse; "
+                                 "the pairing is not decided for this shape" % b["blk"].line)
+        if charged != counted:
+            ck.violation("R09h", "R09h/line-class/%s-%s" % ("+".join(sorted(counted)), "+".join(sorted(charged))), where,
+                         "update_n counts %s event(s) here but charges %s: the merged profile prices this column with a different "
+                         "penalty than the one selected for that kind of gap" % (sorted(counted), sorted(charged)), prog.config)
+        elif wc and wn and wc != wn:
+            ck.violation("R09h", "R09h/line-weight/%s" % "+".join(sorted(wc | wn)), where,
+                         "update_n weights the counter by %s but the charge by %s" % (sorted(wn), sorted(wc)), prog.config)
+    ck.floor("R09h", n, 4, "counting/charging branches of update_n and its private helpers")
+
+
 def run(ck, progs):
     describe(ck)
     for cfg, prog in progs.items():
@@ -617,6 +784,9 @@ def run(ck, progs):
         ck.attempt(r09c, ck, prog)
         ck.attempt(r09d, ck, prog)
         ck.attempt(r09e, ck, prog)
+        ck.attempt(r09f, ck, prog)
+        ck.attempt(r09g, ck, prog)
+        ck.attempt(r09h, ck, prog)
     return ("Static rules over the resolved AST of aln_param.c, run_kalign.c, parameters.c and kalign.h: "
             "(guard variable, source variable, target field) triples of the three overrides; the (sequence kind x "
             "type constant) table of both switch statements with fallthrough and default followed; the ordered "
